@@ -1,5 +1,6 @@
 import collections
 import datetime
+import decimal
 import itertools
 import json
 import math
@@ -450,9 +451,14 @@ def portable_hash(x):
         return strhash(x)
     if isinstance(x, datetime.datetime):
         return portable_hash(x.timetuple())
+    if isinstance(x, bytes):
+        # like str, the builtin hash of bytes is salted per process
+        return strhash(x.decode('latin-1'))
     if isinstance(x, (float, complex)) and x != x:
         # NaN: since Python 3.10 its builtin hash is derived from the address
         # of the object, which differs between (and within) processes
+        return 0
+    if isinstance(x, decimal.Decimal) and x.is_nan():
         return 0
     return hash(x)
 
